@@ -40,7 +40,12 @@ type mxSpec struct {
 	mx   *actors.ScriptedMX
 	tlsa string // none, ee-match, ee-mismatch, ta-match, unusable, servfail
 	down bool   // nothing listens on this host (connection refused)
+	// cname: the MX host name is an alias; address and TLSA records live at
+	// the canonical name (RFC 7672 section 2.2.2)
+	cname bool
 }
+
+func (m *mxSpec) canon() string { return strings.Replace(m.host, ".dest.", ".canon.", 1) }
 
 type rmsg struct {
 	id             string
@@ -142,6 +147,7 @@ func (w *world) gen() {
 			StartTLS: s.T.Choose(st, 4) != 0, TLSFails: s.T.Choose(st, 8) == 0,
 			Cert:       []actors.CertKind{actors.CertValid, actors.CertValid, actors.CertSelfSigned, actors.CertWrongName, actors.CertExpired}[s.T.Choose(st, 5)],
 			RequireTLS: s.T.Choose(st, 2) == 1,
+			Quit421:    s.T.Choose(st, 6) == 0,
 			Rcpt:       map[string][]actors.Outcome{}, FinalPer: map[string][]actors.Outcome{}}
 		num := []int{0, 2, 4}[s.T.Choose(st, 3)]
 		for k := 0; k < 6; k++ {
@@ -158,7 +164,8 @@ func (w *world) gen() {
 		}
 		tlsa := []string{"none", "none", "ee-match", "ee-mismatch", "ta-match", "unusable", "servfail"}[s.T.Choose(st, 7)]
 		down := nmx > 1 && s.T.Choose(st, 5) == 0
-		w.mxs = append(w.mxs, &mxSpec{host: host, pref: uint16(10 * (i + 1)), tlsa: tlsa, down: down, mx: &actors.ScriptedMX{Host: host, Plan: p, PKI: actors.SharedPKI()}})
+		cname := s.T.Choose(st, 4) == 0 && tlsa != "ta-match"
+		w.mxs = append(w.mxs, &mxSpec{host: host, pref: uint16(10 * (i + 1)), tlsa: tlsa, down: down, cname: cname, mx: &actors.ScriptedMX{Host: host, Plan: p, PKI: actors.SharedPKI()}})
 	}
 	switch s.T.Choose(st, 3) {
 	case 0:
@@ -349,13 +356,31 @@ func (w *world) dnsExchange(ctx context.Context, q *dns.Msg, server string) (*dn
 		}
 	case dns.TypeA:
 		for _, m := range w.mxs {
-			if name == m.host+"." {
+			switch {
+			case name == m.host+"." && m.cname:
+				// what a recursive resolver returns: the alias and the address
+				// record of the canonical name
+				r.Answer = append(r.Answer, &dns.CNAME{Hdr: hdr(dns.TypeCNAME), Target: m.canon() + "."})
+				r.Answer = append(r.Answer, &dns.A{Hdr: dns.RR_Header{Name: m.canon() + ".", Rrtype: dns.TypeA, Class: dns.ClassINET, Ttl: 300}, A: net.IPv4(203, 0, 113, 7)})
+			case name == m.host+".", m.cname && name == m.canon()+".":
 				r.Answer = append(r.Answer, &dns.A{Hdr: hdr(dns.TypeA), A: net.IPv4(203, 0, 113, 7)})
+			}
+		}
+	case dns.TypeCNAME:
+		for _, m := range w.mxs {
+			if m.cname && name == m.host+"." {
+				r.Answer = append(r.Answer, &dns.CNAME{Hdr: hdr(dns.TypeCNAME), Target: m.canon() + "."})
 			}
 		}
 	case dns.TypeTLSA:
 		for _, m := range w.mxs {
-			if name != "_25._tcp."+m.host+"." {
+			base := m.host
+			if m.cname {
+				// records are published at the canonical name only; the alias
+				// itself has an (authenticated) empty answer
+				base = m.canon()
+			}
+			if name != "_25._tcp."+base+"." {
 				continue
 			}
 			leaf, _ := x509.ParseCertificate(m.mx.PKI.Cert(m.host, m.mx.Plan.Cert).Certificate[0])
@@ -605,7 +630,7 @@ func (w *world) shape() string {
 	fmt.Fprintf(&sb, "sts=%v/%s/%v local=%v/%s/%s ovr=%v relax=%v lim=%d dnsfail=%v stsidn=%s stsdelay=%v/%v|", w.useSTS, w.stsMode, w.stsMX, w.useLocal, w.minTLS, w.minMX, w.override, w.relaxed, w.destLimit, w.dnsFailD, w.stsModeD["idn"], w.stsDelayD["dest"], w.stsDelayD["idn"])
 	for _, m := range w.mxs {
 		p := m.mx.Plan
-		fmt.Fprintf(&sb, "[%s down=%v tls=%v/%v cert=%v rtls=%v tlsa=%s]", m.host, m.down, p.StartTLS, p.TLSFails, p.Cert, p.RequireTLS, m.tlsa)
+		fmt.Fprintf(&sb, "[%s down=%v cname=%v tls=%v/%v cert=%v rtls=%v tlsa=%s]", m.host, m.down, m.cname, p.StartTLS, p.TLSFails, p.Cert, p.RequireTLS, m.tlsa)
 	}
 	for _, m := range w.msgs {
 		fmt.Fprintf(&sb, "{%s r=%d rt=%v ov=%v q=%v/%v at=%v gap=%v}", m.id, len(m.rcpts), m.requireTLS, m.tlsOverride, m.quarantine, m.quarantineLate, m.atomic, m.gap)
